@@ -440,6 +440,47 @@ func checkC17(c *Ctx, w *World) {
 			if !imp || !entryOK {
 				okTab = false
 			}
+			// … for EVERY name of EVERY entry: both scans run to exhaustion (left only at their header), every iteration of the
+			// name scan stores, and the name scan is entered for every entry that has names and an affinity section
+			var inner, outer *Loop
+			for _, l := range loopsOf(ic) {
+				if !l.Blocks[mu.Block()] {
+					continue
+				}
+				if inner == nil || len(l.Blocks) < len(inner.Blocks) {
+					inner = l
+				}
+			}
+			for _, l := range loopsOf(ic) {
+				if inner != nil && l != inner && l.Blocks[inner.Header] && (outer == nil || len(l.Blocks) < len(outer.Blocks)) {
+					outer = l
+				}
+			}
+			complete := inner != nil && outer != nil
+			if complete {
+				for _, l := range []*Loop{inner, outer} {
+					for _, ex := range l.exits() {
+						if ex[0] != l.Header {
+							complete = false
+						}
+					}
+				}
+				for _, lt := range inner.Latch {
+					if !mu.Block().Dominates(lt) {
+						complete = false
+					}
+				}
+				body := outer.Header.Succs[0]
+				if !outer.Blocks[body] {
+					body = outer.Header.Succs[len(outer.Header.Succs)-1]
+				}
+				if full, _ := tcs.Implies(tcs.And(tcs.ReachBlock(body), tcs.Not(tcs.Atom("namesNil")), tcs.Not(tcs.Atom("affNil"))), tcs.ReachBlock(inner.Header)); !full {
+					complete = false
+				}
+			}
+			if !complete {
+				okTab = false
+			}
 		})
 	}
 	c.check(okTab && nmu == 1, "C17.methods", "method table", p.pos(ic.Pos()), "fresh map; mp[name] = entry.GetAffinity() for every name of entry.GetName() of the same entry, only when both are non-nil", "the method table does not map every listed name to its own entry's affinity section")
